@@ -5,12 +5,11 @@
    Matrices are lists of rows; [mget NumR M i j] is entry (i,j); [mmul NumR n] the product of
    n x n matrices; [mident NumR n] the identity; [Sumn n f] = f 0 + ... + f (n-1).
 
-   NOT formalised (named in the trusted base): the classical uniqueness theorem "a continuous
-   matrix semigroup P(s+t) = P(s)P(t), P(0) = I, with P'(0) = Q is t |-> exp(Qt)".  The theorems
-   below establish its hypotheses (semigroup, identity at 0, continuity, generator) for the
-   spectral formula used by SymmetricSubstitutionModel / EmpiricalSubstitutionModel and for the
-   JC69 / GeneralJC69 closed forms; "P(t) IS the matrix exponential" is concluded from them by that
-   theorem.  torch.matrix_exp (non-reversible models) and torch.linalg.eigh are oracles: their
+   "P(t) IS the matrix exponential" is a theorem (proof/P_matexp.v): exp(Qt) is the entrywise power
+   series sum_k t^k/k! (Q^k)_ij (Coquelicot's [is_series]; [mpow n Q k] the k-fold product), and the
+   spectral formula used by SymmetricSubstitutionModel / EmpiricalSubstitutionModel and by every model
+   that goes through eigen() sums to it; entries are non-negative for t >= 0 and rows sum to one.
+   torch.matrix_exp (non-reversible models) and torch.linalg.eigh are oracles: their
    outputs are checked numerically on every run against an independent scaling-and-squaring
    Taylor evaluation of exp(Qt) of the MODEL's Q (harness/props/c04.py). *)
 From Coq Require Import QArith Reals List Arith Lia Lra.
@@ -18,7 +17,7 @@ Set Warnings "-ambiguous-paths".
 From Coquelicot Require Import Coquelicot.
 Set Warnings "ambiguous-paths".
 Import ListNotations.
-From TT Require Import Num NumR NumI ParamI Tree M_subst G_subst M_subst_gen P_subst P_subst_gen P_subst_param.
+From TT Require Import Num NumR NumI ParamI Tree M_subst G_subst M_subst_gen P_subst P_subst_gen P_subst_param P_matexp.
 Open Scope R_scope.
 
 (* ---------------------------------------------------------------- rate-matrix builders, any n *)
@@ -154,15 +153,8 @@ Print Assumptions C04_symmetrisation.
 
 (* the code's formula: for ANY exact eigendecomposition V diag(lam) V^-1 of the symmetrised matrix,
    (sqrt_pi_inv V) diag(exp(lam t)) (V^-1 sqrt_pi) satisfies P(0) = I, the semigroup law, has
-   generator Q, is continuous, and has rows summing to one when the rows of Q sum to zero.
-   FULL STATEMENT WANTED (C04): "P(t) = exp(Qt), and every row of P(t) is a probability vector".
-   PROVED HERE (hence _partial): everything except
-     (1) P(t) IS exp(Qt): follows from the four facts below by the classical uniqueness theorem,
-         which is not formalised (no matrix exponential in the installed libraries);
-     (2) entrywise 0 <= P_ij(t) for a general rate matrix (needs exp(Qt) = lim (I + Qt/m)^m or an
-         ODE comparison argument; not formalised).  Proved for the Jukes-Cantor closed forms
-         (C04_general_jc69); for all other models checked numerically on every run (p-range). *)
-Theorem C04_symmetric_p_t_partial : forall n Q pi V W lam,
+   generator Q, is continuous, and has rows summing to one when the rows of Q sum to zero ... *)
+Theorem C04_symmetric_p_t : forall n Q pi V W lam,
   (forall i, (i < n)%nat -> 0 < vget NumR pi i) -> wf n Q -> wf n V -> wf n W -> length lam = n ->
   mmul NumR n V W = mident NumR n -> mmul NumR n W V = mident NumR n ->
   mmul NumR n (map (fun row => vmul NumR row lam) V) W = symmetrised NumR n Q pi ->
@@ -174,7 +166,55 @@ Theorem C04_symmetric_p_t_partial : forall n Q pi V W lam,
   (List.Forall (fun row => nsum NumR row = 0) Q ->
    forall t i, (i < n)%nat -> Sumn n (fun j => mget NumR (P t) i j) = 1).
 Proof. exact symmetric_p_t. Qed.
-Print Assumptions C04_symmetric_p_t_partial.
+Print Assumptions C04_symmetric_p_t.
+
+(* ... and it IS the matrix exponential: for every t (negative ones included) and every entry, the power
+   series  sum_k t^k / k! (Q^k)_ij  converges to P(t)_ij.  Same hypotheses, nothing else. *)
+Theorem C04_p_t_is_matrix_exponential : forall n Q pi V W lam,
+  (forall i, (i < n)%nat -> 0 < vget NumR pi i) -> wf n Q -> wf n V -> wf n W -> length lam = n ->
+  mmul NumR n V W = mident NumR n -> mmul NumR n W V = mident NumR n ->
+  mmul NumR n (map (fun row => vmul NumR row lam) V) W = symmetrised NumR n Q pi ->
+  let P := p_spectral NumR n (spectral_A NumR n V pi) lam (spectral_B NumR n W pi) in
+  forall t i j, (i < n)%nat -> (j < n)%nat ->
+    is_series (fun k => t ^ k / INR (fact k) * mget NumR (mpow n Q k) i j) (mget NumR (P t) i j).
+Proof. exact spectral_is_exp_series. Qed.
+Print Assumptions C04_p_t_is_matrix_exponential.
+
+(* Every row of P(t), t >= 0, is a probability vector when Q is a rate matrix (off-diagonal entries >= 0,
+   rows summing to zero): entries in [0,1] — and the sum of the exponential series is non-negative. *)
+Theorem C04_p_t_rows_are_probability_vectors : forall n Q pi V W lam,
+  (forall i, (i < n)%nat -> 0 < vget NumR pi i) -> wf n Q -> wf n V -> wf n W -> length lam = n ->
+  mmul NumR n V W = mident NumR n -> mmul NumR n W V = mident NumR n ->
+  mmul NumR n (map (fun row => vmul NumR row lam) V) W = symmetrised NumR n Q pi ->
+  (forall i j, (i < n)%nat -> (j < n)%nat -> i <> j -> 0 <= mget NumR Q i j) ->
+  let P := p_spectral NumR n (spectral_A NumR n V pi) lam (spectral_B NumR n W pi) in
+  forall t i j, 0 <= t -> (i < n)%nat -> (j < n)%nat ->
+    0 <= mget NumR (P t) i j /\
+    (forall s, is_series (fun k => t ^ k / INR (fact k) * mget NumR (mpow n Q k) i j) s -> 0 <= s) /\
+    (List.Forall (fun row => nsum NumR row = 0) Q -> mget NumR (P t) i j <= 1).
+Proof. exact exp_series_nonneg. Qed.
+Print Assumptions C04_p_t_rows_are_probability_vectors.
+
+(* The same two facts for ANY diagonalisation Q = A diag(lam) A^-1 with real eigenvalues (no reversibility, no
+   frequencies): what a model that computes P(t) through its own eigen() relies on. *)
+Theorem C04_any_real_diagonalisation_is_matrix_exponential : forall n A B Q lam,
+  wf n A -> wf n B -> length lam = n ->
+  mmul NumR n A B = mident NumR n -> mmul NumR n B A = mident NumR n ->
+  mmul NumR n (map (fun row => vmul NumR row lam) A) B = Q ->
+  forall t i j, (i < n)%nat -> (j < n)%nat ->
+  is_series (fun k => t ^ k / INR (fact k) * mget NumR (mpow n Q k) i j)
+            (mget NumR (p_spectral NumR n A lam B t) i j).
+Proof. exact spectral_exp_series. Qed.
+Print Assumptions C04_any_real_diagonalisation_is_matrix_exponential.
+Theorem C04_any_real_diagonalisation_nonneg : forall n A B Q lam,
+  wf n A -> wf n B -> length lam = n ->
+  mmul NumR n A B = mident NumR n -> mmul NumR n B A = mident NumR n ->
+  mmul NumR n (map (fun row => vmul NumR row lam) A) B = Q ->
+  (forall i j, (i < n)%nat -> (j < n)%nat -> i <> j -> 0 <= mget NumR Q i j) ->
+  forall t i j, 0 <= t -> (i < n)%nat -> (j < n)%nat ->
+  0 <= mget NumR (p_spectral NumR n A lam B t) i j.
+Proof. exact spectral_nonneg. Qed.
+Print Assumptions C04_any_real_diagonalisation_nonneg.
 
 (* ---------------------------------------------------------------- Jukes-Cantor closed forms *)
 
